@@ -82,4 +82,165 @@ theorem checkSchema_nil_perm {T T' : TsDoc} (h : T.Perm T') (hb : BuiltinsApart 
   rw [e] at hp
   exact hp.symm.eq_nil
 
+/-! ### permutations that keep the relative order of the definitions of each directive name
+
+(what reordering SOURCE text can do to a re-declared built-in directive: the user's definition stays before the
+built-in one) -/
+
+theorem list_reverse_induction {α : Type} {P : List α → Prop} (h0 : P [])
+    (hs : ∀ l x, P l → P (l ++ [x])) : ∀ l, P l := by
+  intro l
+  have : ∀ r : List α, P r.reverse := by
+    intro r
+    induction r with
+    | nil => exact h0
+    | cons x r ih => rw [List.reverse_cons]; exact hs _ _ ih
+  simpa using this l.reverse
+
+theorem uniqLoop_snoc (b : Bool) : ∀ (l seen : List (Name × Pos)) (x : Name × Pos),
+    uniqLoop b seen (l ++ [x]) = uniqLoop b seen l ++ uniqueStep b (seen ++ l) x.1 x.2 := by
+  intro l
+  induction l with
+  | nil => intro seen x; simp [uniqLoop]
+  | cons y l ih =>
+    intro seen x
+    simp only [List.cons_append, uniqLoop, ih, List.append_assoc, List.singleton_append, List.nil_append]
+
+/-- what the directive loop demands of the definitions of ONE name, in document order: if the first is the user's,
+    all the others are at built-in positions -/
+def groupOk : List (Name × Pos) → Bool
+  | [] => true
+  | o :: r => o.2.builtin || r.all (·.2.builtin)
+
+theorem groupOk_snoc (g : List (Name × Pos)) (x : Name × Pos) :
+    groupOk (g ++ [x]) = true ↔
+      groupOk g = true ∧ (match g with | [] => True | o :: _ => o.2.builtin = true ∨ x.2.builtin = true) := by
+  cases g with
+  | nil => simp [groupOk]
+  | cons o r =>
+    simp only [List.cons_append, groupOk, List.all_append, List.all_cons, List.all_nil, Bool.and_true,
+      Bool.or_eq_true, Bool.and_eq_true]
+    constructor
+    · rintro (h | ⟨h1, h2⟩)
+      · exact ⟨Or.inl h, Or.inl h⟩
+      · exact ⟨Or.inr h1, Or.inr h2⟩
+    · rintro ⟨h1 | h1, h2 | h2⟩
+      · exact Or.inl h1
+      · exact Or.inl h1
+      · exact Or.inl h2
+      · exact Or.inr ⟨h1, h2⟩
+
+theorem uniqueStep_dir_nil_iff (l : List (Name × Pos)) (x : Name × Pos) :
+    uniqueStep false l x.1 x.2 = [] ↔
+      (match l.filter (·.1 == x.1) with | [] => True | o :: _ => o.2.builtin = true ∨ x.2.builtin = true) := by
+  unfold uniqueStep
+  rw [← List.head?_filter]
+  cases l.filter (·.1 == x.1) with
+  | nil => simp
+  | cons o r =>
+    simp only [List.head?_cons]
+    unfold uniqueReport
+    cases o.2.builtin <;> cases x.2.builtin <;> simp
+
+theorem uniqLoop_dir_nil_iff_groups : ∀ l : List (Name × Pos),
+    uniqLoop false [] l = [] ↔ ∀ n : Name, groupOk (l.filter (·.1 == n)) = true := by
+  apply list_reverse_induction
+  · simp [uniqLoop, groupOk]
+  · intro l x ih
+    rw [uniqLoop_snoc, List.nil_append, List.append_eq_nil_iff, ih, uniqueStep_dir_nil_iff]
+    have hf : ∀ n : Name, (l ++ [x]).filter (·.1 == n) =
+        l.filter (·.1 == n) ++ (if x.1 == n then [x] else []) := by
+      intro n
+      rw [List.filter_append]
+      cases h : x.1 == n <;> simp [List.filter_cons, h]
+    constructor
+    · rintro ⟨h1, h2⟩ n
+      rw [hf]
+      cases h : x.1 == n with
+      | false => simpa using h1 n
+      | true =>
+        have hn : x.1 = n := by simpa using h
+        subst hn
+        simp only [if_true]
+        exact (groupOk_snoc _ _).mpr ⟨h1 x.1, h2⟩
+    · intro H
+      have hx := H x.1
+      rw [hf] at hx
+      simp only [beq_self_eq_true, if_true] at hx
+      obtain ⟨hx1, hx2⟩ := (groupOk_snoc _ _).mp hx
+      refine ⟨fun n => ?_, hx2⟩
+      cases h : x.1 == n with
+      | false =>
+        have := H n
+        rw [hf, h] at this
+        simpa using this
+      | true =>
+        have hn : x.1 = n := by simpa using h
+        subst hn
+        exact hx1
+
+/-- the relative order of the definitions of every directive name is the same in both documents -/
+def KeepsDirectiveOrder (T T' : TsDoc) : Prop :=
+  ∀ n : Name, (Schema.mk T).directiveDefs.filter (·.name == n) = (Schema.mk T').directiveDefs.filter (·.name == n)
+
+theorem KeepsDirectiveOrder.symm {T T' : TsDoc} (h : KeepsDirectiveOrder T T') : KeepsDirectiveOrder T' T :=
+  fun n => (h n).symm
+
+theorem directiveIdents_filter (T : TsDoc) (n : Name) :
+    (directiveIdents T).filter (·.1 == n) =
+      ((Schema.mk T).directiveDefs.filter (·.name == n)).map fun d => (d.name, d.namePos) := by
+  unfold directiveIdents ValidTs.directiveDefs
+  rw [List.filter_map]
+  rfl
+
+theorem identsOk_perm {l l' : List (Name × Pos)} (h : l.Perm l') (hi : IdentsOk l) : IdentsOk l' :=
+  ⟨(userNames_perm h).nodup_iff.mp hi.1,
+   fun n hn hm => hi.2 n ((userNames_perm h).mem_iff.mpr hn) ((builtinNames_perm h).mem_iff.mpr hm)⟩
+
+/-- `check_unique_names` reports nothing for `T` ⇒ nothing for a permutation that keeps the per-name order of the
+    directive definitions -/
+theorem checkUniqueNames_nil_keeps {T T' : TsDoc} (h : T.Perm T') (hk : KeepsDirectiveOrder T T')
+    (e : checkUniqueNames T = []) : checkUniqueNames T' = [] := by
+  rw [checkUniqueNames_nil_iff] at e ⊢
+  refine ⟨(uniqLoop_type_nil_iff' _).mpr (identsOk_perm (typeIdents_perm h) ((uniqLoop_type_nil_iff' _).mp e.1)), ?_⟩
+  rw [uniqLoop_dir_nil_iff_groups] at e ⊢
+  intro n
+  rw [directiveIdents_filter, ← hk n, ← directiveIdents_filter]
+  exact e.2 n
+
+theorem sameView_of_keeps {T T' : TsDoc} (h : T.Perm T') (ndt : NoDupTypeNames T) (hk : KeepsDirectiveOrder T T') :
+    SameView ⟨T⟩ ⟨T'⟩ :=
+  ⟨fun n => find?_perm_of_unique _ (typeDefs_perm h) (filter_length_le_one_of_nodup (fun t : TypeDef => t.name) _ ndt n),
+   fun n => by
+     unfold Schema.directiveDef?
+     rw [← List.head?_filter, ← List.head?_filter, hk n]⟩
+
+theorem sameDefMap_of_keeps {T T' : TsDoc} (h : T.Perm T') (ndt : NoDupTypeNames T) (hk : KeepsDirectiveOrder T T') :
+    SameDefMap T T' := by
+  have hv := sameView_of_keeps h ndt hk
+  refine ⟨fun n => ?_, fun n => ?_, h.length_eq⟩
+  · rw [lastTypeDef?_eq_typeDef? ndt, lastTypeDef?_eq_typeDef? (ndt.perm h), hv.ty]
+  · unfold lastDirectiveDef?
+    rw [← List.head?_filter, ← List.head?_filter, List.filter_reverse, List.filter_reverse, hk n]
+
+/-- one direction of the second verdict theorem -/
+theorem checkSchema_nil_keeps {T T' : TsDoc} (h : T.Perm T') (hk : KeepsDirectiveOrder T T')
+    (hb : builtinTypeNamesDistinct T = true) (e : checkSchema T = []) : checkSchema T' = [] := by
+  obtain ⟨e1, e2⟩ := (checkSchema_nil_iff T).mp e
+  have ndt : NoDupTypeNames T := (noDupTypeNames_iff T).mpr (uniqueTypeNames_of_unique e1 hb)
+  rw [checkSchema_nil_iff]
+  refine ⟨checkUniqueNames_nil_keeps h hk e1, ?_⟩
+  have hf : checkItem T ⟨T⟩ = checkItem T' ⟨T'⟩ :=
+    funext fun x => checkItem_congr (sameDefMap_of_keeps h ndt hk) (sameView_of_keeps h ndt hk) x
+  have hp : (checkSchemaItems T).Perm (checkSchemaItems T') := by
+    unfold checkSchemaItems
+    rw [hf]
+    exact h.flatMap_right _
+  rw [e2] at hp
+  exact hp.symm.eq_nil
+
+theorem builtinTypeNamesDistinct_perm {T T' : TsDoc} (h : T.Perm T') (hb : builtinTypeNamesDistinct T = true) :
+    builtinTypeNamesDistinct T' = true :=
+  noDup_perm (builtinNames_perm (typeIdents_perm h)) hb
+
 end NitroVerif.Determinism
